@@ -4,6 +4,7 @@ mod checks;
 mod data;
 mod qgen;
 mod model;
+mod mon;
 mod qast;
 mod refeval;
 mod rng;
@@ -39,6 +40,11 @@ fn main() {
             let w: Witness = ron::from_str(&text).expect("cannot parse witness");
             let res = match w.kind.as_str() {
                 "c01" => checks::c01::replay(w.case.as_ref().expect("witness without case")),
+                "c09" => checks::c09::replay(w.case.as_ref().expect("witness without case")),
+                "c21" => checks::c21::replay(w.case.as_ref().expect("witness without case")),
+                "c13" => checks::c13::replay(w.case.as_ref().expect("witness without case")),
+                "c11" => checks::c11::replay(w.case.as_ref().expect("witness without case")),
+                "c05" => checks::c05::replay(w.case.as_ref().expect("witness without case")),
                 other => Err(format!("no replay routine for kind {other}")),
             };
             match res {
@@ -70,6 +76,11 @@ fn main() {
             report.progress_file = progress.map(PathBuf::from);
             match prop {
                 "C01" => checks::c01::run(&mut report, seed, cases),
+                "C09" => checks::c09::run(&mut report, seed, cases),
+                "C21" => checks::c21::run(&mut report, seed, cases),
+                "C13" => checks::c13::run(&mut report, seed, cases),
+                "C11" => checks::c11::run(&mut report, seed, cases),
+                "C05" => checks::c05::run(&mut report, seed, cases),
                 other => {
                     eprintln!("unknown property {other}");
                     std::process::exit(2);
